@@ -185,6 +185,15 @@ def hostile_programs(rng):
              "    public static function answer() -> int {\n        return 42;\n    }\n"
              "    public static function twice(int k) -> int {\n        return k + k;\n    }\n"
              "    public static function pair(int a, int b) -> int {\n        return a * 10 + b;\n    }\n}\n" % (tps, fld, tps))
+    # a destructor that lets 'this' escape (into a static, into another object, through a call that stores it)
+    esc = ("class Keep {\n    public static Keep last;\n    public Keep other;\n    public int v = 3;\n"
+           "    public constructor() -> Keep = default;\n    public static function stash(Keep k) -> void {\n        last = k;\n    }\n"
+           "    public destructor() -> void {\n        %s\n    }\n}\n")
+    for tag, stmt in (("static", "Keep.last = this;"), ("call", "Keep.stash(this);"), ("local-only", "Keep tmp = this; int w = tmp.v;"),
+                      ("field-of-other", "if (Keep.last != null) { Keep.last.other = this; }")):
+        prog("this-escapes-destructor:" + tag, "    Keep anchor = new Keep();\n    Keep.last = anchor;\n    Keep k = new Keep();\n    destroy k;\n"
+             "    echo(1);\n    if (Keep.last != null) {\n        echo(Keep.last.v);\n    }\n    if (anchor.other != null) {\n        echo(anchor.other.v);\n    }",
+             esc % stmt)
     # heaps the collector has to walk: reachable cycles, long chains and object arrays alive while
     # allocation pressure (> 16 allocations) triggers collections
     ring = ("class R {\n    public R next;\n    public R prev;\n    public int v;\n    public constructor(int v) -> R {\n        this.v = v;\n        return this;\n    }\n}\n")
